@@ -56,6 +56,10 @@ func runAmmo(f []string) string {
 	t := theTarget()
 	t.SetConnectMode("ok")
 	cfg := httpGunConfig(t.Addr())
+	// no fault is played in these cases: generous client timeouts, so that a busy machine cannot
+	// turn an answered exchange into a timeout
+	cfg.Client.Dialer.Timeout = 10 * time.Second
+	cfg.Client.Transport.ResponseHeaderTimeout = 10 * time.Second
 	cfg.AutoTag.Enabled = f[2] == "1"
 	fmt.Sscanf(f[3], "%d", &cfg.AutoTag.URIElements)
 	cfg.AutoTag.NoTagOnly = f[4] == "1"
@@ -126,13 +130,13 @@ func runAmmo(f []string) string {
 					go func() { defer close(done); g.Shoot(am) }()
 					select {
 					case <-done:
-					case <-time.After(5 * time.Second):
+					case <-time.After(25 * time.Second):
 						setEnd("hang")
 						return
 					}
 					prov.Release(r.a)
 				}
-			case <-time.After(4 * time.Second):
+			case <-time.After(15 * time.Second):
 				setEnd("hang")
 			}
 		}
